@@ -70,8 +70,32 @@ def substance_case(draw):
             "proportion": draw(st.sampled_from([None, None, 3, 0.5, 2.0]))}
 
 
+@st.composite
+def operand_case(draw):
+    """Material + Substance(dict): the substance operand stands for exactly the atoms of its dictionary, also when a
+    count is not a whole number (an alloy or a solid solution given by fractions)"""
+    els = draw(st.lists(st.sampled_from(["C", "O", "Fe", "Ni", "H", "Si", "Al", "N"]), min_size=2, max_size=3, unique=True))
+    whole = draw(st.booleans())
+    counts = [draw(st.sampled_from([1, 2, 3] if whole else [1, 0.5, 0.25, 1.5, 2, 0.1])) for _ in els]
+    if not whole and all(float(c).is_integer() for c in counts):
+        counts[-1] = 0.5
+    return {"kind": "operand", "base": [draw(st.sampled_from(["KCl", "H2O", "NaCl", "Ar"])), draw(prop)],
+            "elems": [[e, c] for e, c in zip(els, counts)], "p": draw(prop), "norm": draw(st.sampled_from(["number", "mass"])),
+            "natural": draw(st.booleans())}
+
+
 def strategies(tier):
-    return {"material": (material_case(), 1200, 30000), "substance": (substance_case(), 800, 20000)}
+    return {"material": (material_case(), 1200, 30000), "substance": (substance_case(), 800, 20000),
+            "operand": (operand_case(), 200, 3000)}
+
+
+def _known_fractional_operand(case, kind, detail):
+    # C11-K1: a substance with a count that is not a whole number > 1 cannot pass through its own .expr text, from
+    # which Material + Substance rebuilds it (counts <= 1 are left out of the text, 'C1.5O' cannot be parsed)
+    return case.get("kind") == "operand" and any(not float(c).is_integer() for _e, c in case["elems"])
+
+
+KNOWN = {"C11-K1": _known_fractional_operand}
 
 
 # --------------------------------------------------------------------------- reference
@@ -335,7 +359,32 @@ def check_substance(case, v):
     v.label("substance")
 
 
+def check_operand(case, v):
+    from scinumtools.materials import Material, Substance, Norm
+    nat, norm = case["natural"], case["norm"]
+    base, p1 = case["base"]
+    d = {e: c for e, c in case["elems"]}
+    text = f"Material({{{base!r}: {p1}}}, norm={norm}, natural={nat}) + Substance({d!r}, proportion={case['p']})"
+    v.info = {"text": text}
+    v.nt(True)
+    v.label("substance_operand_from_dict", "whole_counts" if all(float(c).is_integer() for c in d.values()) else "fractional_counts")
+    m2 = sum(c * F10.species_data(e, None, 0, nat)[3] for e, c in d.items())
+    ex, eX = fractions([p1, case["p"]], [formula_mass(base, nat), m2], norm)
+    try:
+        kw = dict(natural=nat) if norm == "number" else dict(natural=nat, norm_type=Norm.MASS_FRACTION)
+        mat = Material({base: p1}, **kw) + Substance(dict(d), natural=nat, proportion=case["p"])
+        tab = mat.data_composite(quantity=False)
+        keys = [k for k in tab.keys() if k not in ("avg", "sum")]
+        if len(keys) != 2 or keys[0] != base:
+            return v.fail("operand-components", f"{text}: components {keys}")
+        x, X = [float(tab[k].x) for k in keys], [float(tab[k].X) for k in keys]
+    except Exception as e:
+        return v.fail("operand-raised", f"{text} raised {e!r}")
+    if not (_cmp(v, text, x, ex, "operand-x") and _cmp(v, text, X, eX, "operand-X")):
+        return
+
+
 def check(case):
     v = Verdict()
-    {"material": check_material, "substance": check_substance}[case["kind"]](case, v)
+    {"material": check_material, "substance": check_substance, "operand": check_operand}[case["kind"]](case, v)
     return v
